@@ -152,6 +152,7 @@ type scenario struct {
 	maprot  int
 	noForge bool    // the coalition only sends validly justified messages (equivocation, selective inclusion, votes)
 	prefix  []pstep // scripted real execution that leads to the (non-initial) state the search starts from
+	reject  map[int64]map[int64]bool // member -> values its Compare callback refuses (the attestation-compare feature): a pure function of (member, proposed value)
 }
 
 // msel selects a message of the pool (or of the coalition's repertoire) by its header; pr < 0 = any.
@@ -204,7 +205,11 @@ func runLocal(tb *testing.T, sc *scenario, tbl *msgTable, proc int64, hist []lev
 				lr.timer, lr.timerActive = ch, true
 				return ch, func() { lr.timerActive = false }
 			},
-			Compare: func(_ context.Context, _ Msg[int64, int64, int64], _ <-chan int64, _ int64, returnErr chan error, _ chan int64) {
+			Compare: func(_ context.Context, m Msg[int64, int64, int64], _ <-chan int64, _ int64, returnErr chan error, _ chan int64) {
+				if sc.reject[proc][m.Value()] {
+					returnErr <- fmt.Errorf("local data differ from the leader's proposal")
+					return
+				}
 				returnErr <- nil
 			},
 			Decide: func(_ context.Context, _ int64, value int64, round int64, qcommit []Msg[int64, int64, int64]) {
@@ -1246,7 +1251,21 @@ func (c *checker) check(g *gstate, info []stepInfo, parent int32, hi int, evs []
 			for _, id := range si.unjust {
 				c.unjustHonest++
 				m := c.tbl.all[id]
-				c.violation("C04u", "kind=honest-message-rejected-as-unjustified", fmt.Sprintf("member %d rejected %s, sent by an honest member, as unjustified", si.proc, m.key), parent, hi, evs)
+				sig := "kind=honest-message-rejected-as-unjustified"
+				if m.typ == MsgPrePrepare && m.round > 1 {
+					// the leader's own Compare callback refused the value its justification exhibits as prepared: it proposes
+					// its own input instead (qbft.Run, UponQuorumRoundChanges: compareFailureRound == pr)
+					var hpr, hpv int64
+					for _, j := range m.just {
+						if j.typ == MsgRoundChange && j.round == m.round && j.pr > hpr {
+							hpr, hpv = j.pr, j.pv
+						}
+					}
+					if hpr > 0 && m.val != hpv && sc.reject[m.src][hpv] {
+						sig += " cause=leader-refused-the-prepared-value-in-compare-and-proposed-its-own"
+					}
+				}
+				c.violation("C04u", sig, fmt.Sprintf("member %d rejected %s, sent by an honest member, as unjustified", si.proc, m.key), parent, hi, evs)
 			}
 		}
 	}
@@ -1379,6 +1398,7 @@ func c02scenarios() []*scenario {
 		noise   int
 		parts   [][][]int // nil = all partitions into <= maxGroups groups
 		rot     int
+		reject  map[int64]map[int64]bool
 	}
 	add := func(name string, n int, byz []int64, inputs map[int64]int64, values []int64, R int64, o opt) {
 		b := map[int64]bool{}
@@ -1401,7 +1421,7 @@ func c02scenarios() []*scenario {
 				nm += fmt.Sprintf("/maprot=%d", o.rot)
 			}
 			scs = append(scs, &scenario{name: nm, base: name, n: n, byz: b, inputs: in2, values: values, R: R, noise: o.noise, capSt: capSt,
-				allSub: th && n <= 4 && len(part) == 1, groups: part, noForge: o.noForge, maprot: o.rot})
+				allSub: th && n <= 4 && len(part) == 1, groups: part, noForge: o.noForge, maprot: o.rot, reject: o.reject})
 		}
 	}
 	in3 := func() map[int64]int64 { return map[int64]int64{0: 1, 1: 2, 2: 3} }
@@ -1501,6 +1521,24 @@ func c02scenarios() []*scenario {
 				sc.prefix = pfx
 			}
 		}
+	}
+	{
+		// The Compare callback (attestation comparison, feature ChainSplitHalt) REFUSING a leader's value: the member does not
+		// prepare, remembers the round (compareFailureRound), accepts the next round's PRE-PREPARE without justification and,
+		// as a leader, proposes its own value even if a prepared value is exhibited. Which values a member refuses is a pure
+		// function of (member, value), fixed per scenario.
+		rej := func(m int64, vals ...int64) map[int64]map[int64]bool {
+			r := map[int64]map[int64]bool{m: {}}
+			for _, v := range vals {
+				r[m][v] = true
+			}
+			return r
+		}
+		add("n4-cmp-leader2-refuses-A-R3", 4, nil, in4(), nil, 3, opt{reject: rej(1, 1)})
+		add("n4-cmp-nonleader-refuses-A-R2", 4, nil, in4(), nil, 2, opt{reject: rej(3, 1)})
+		add("n4-cmp-refuses-A-byz-leader2-R2-forge", 4, []int64{1}, in4b(), v12, 2, opt{reject: rej(3, 1), parts: [][][]int{{{0, 1, 2}}, {{0}, {1, 2}}, {{0, 1}, {2}}}})
+		add("n4-cmp-refuses-A-byz-leader2-R2-strategy", 4, []int64{1}, in4b(), v12, 2, opt{noForge: true, reject: rej(3, 1)})
+		add("n4-cmp-refuses-A-byz-leader1-R2-strategy", 4, []int64{0}, in4b(), v12, 2, opt{noForge: true, reject: rej(2, 1)})
 	}
 	add("n4-one-without-input-R2", 4, nil, map[int64]int64{1: 2, 2: 3, 3: 4}, nil, 2, opt{})
 	add("n4-byz-leader1-R1-noise1", 4, []int64{0}, in4b(), v12, 1, opt{noise: 1, parts: [][][]int{{{0, 1, 2}}, {{0}, {1, 2}}}})
